@@ -1,4 +1,4 @@
 From Coq Require Import Extraction ExtrOcamlBasic NArith.
 From DV Require Import Base.Outcome Base.PName C19.Gen C19.Model C19.ModelCmp C19.ModelEdns C19.ModelMsg.
 Extraction Language OCaml.
-Extraction "../build/ml/C19/model.ml" c19_split c19_parse c19_rsplit c19_rparse c19_old c19_class c19_build c19_build_rev c19_question c19_record c19_edns c19_mparse.
+Extraction "../build/ml/C19/model.ml" c19_split c19_parse c19_rsplit c19_rparse c19_old c19_class c19_build c19_build_rev c19_question c19_record c19_edns c19_mparse c19_flat.
